@@ -3,6 +3,7 @@ package props
 import (
 	"errors"
 	"fmt"
+	"github.com/advancedclimatesystems/gonnx"
 	"reflect"
 	"regexp"
 	"sort"
@@ -786,6 +787,38 @@ func c15ForeignModel(c *Ctx, name string) {
 	c.Count("foreign-op-layout:"+desc[:minInt(len(desc), 30)], 1)
 	tr := mon.RunGraphTraced(g, feed, nil)
 	c.Eval(1)
+	if tr.Model != nil && at > 0 && r.Chance(0.5) {
+		// a later Run on the same model whose input already fails at the node in FRONT of the
+		// unknown one (Relu refuses bool): it reports what a freshly loaded model reports for that
+		// input - that the graph also holds an unknown operator further down has not been reached
+		var usedErr, freshErr error
+		_ = mon.Capture(nil, func() ([]tensor.Tensor, error) {
+			bad := gonnx.Tensors{}
+			for k, v := range feed {
+				bad[k] = mon.ToTensor(ref.New(ref.Bool, v.Shape...))
+			}
+			_, usedErr = tr.Model.Run(bad)
+			return nil, nil
+		})
+		_ = mon.Capture(nil, func() ([]tensor.Tensor, error) {
+			fm, err := gonnx.NewModelFromBytes(g.Bytes())
+			if err != nil {
+				freshErr = err
+				return nil, nil
+			}
+			fresh := gonnx.Tensors{}
+			for k, v := range feed {
+				fresh[k] = mon.ToTensor(ref.New(ref.Bool, v.Shape...))
+			}
+			_, freshErr = fm.Run(fresh)
+			return nil, nil
+		})
+		c.Eval(2)
+		c.Count("foreign-op-models-run-again-with-an-input-failing-earlier", 1)
+		if (usedErr == nil) != (freshErr == nil) || (usedErr != nil && usedErr.Error() != freshErr.Error()) {
+			c.Violation("foreign-op-model:error-depends-on-earlier-runs", "graph with operator %q (%s): after a Run that reached the unknown operator, a Run whose input fails at an earlier node reports %v; a freshly loaded model reports %v", name, desc, usedErr, freshErr)
+		}
+	}
 	switch {
 	case tr.Outcome.Kind == mon.Panic:
 		c.Violation("foreign-op-model:panic", "%s: %s", desc, tr.Outcome.Describe())
